@@ -596,11 +596,11 @@ def structures(draw, max_res=40, min_res=2, allow_ball=True, allow_hetero=True, 
                     # a second copy of the same molecule in the same chain (labels of its groups then coincide)
                     resn, mol, kindl, hchain_prev = prev
                 elif not ligand_copies and draw(st.integers(0, 3)) == 0:
-                    resn = draw(st.sampled_from(sorted(IONS)))
+                    resn = sorted(IONS)[draw(st.integers(0, 10 ** 6)) % len(IONS)]        # (spread evenly over the names)
                     mol = [(IONS[resn], 0, 0, 0)]
                     kindl = "ion:" + resn
                 else:
-                    key = draw(st.sampled_from(sorted(LIGANDS)))
+                    key = sorted(LIGANDS)[draw(st.integers(0, 10 ** 6)) % len(LIGANDS)]
                     resn, mol = LIGANDS[key]["resn"], LIGANDS[key]["atoms"]
                     kindl = "lig:" + key
                 anchor = prot_atoms[draw(st.integers(0, len(prot_atoms) - 1))]
@@ -698,7 +698,7 @@ def _host(name):
 
 
 @st.composite
-def buried_structures(draw, whole=True, pair_kind=None, with_hetero=True):
+def buried_structures(draw, whole=True, pair_kind=None, with_hetero=True, hetero=None):
     """A corpus protein (whole, so that burial counts are realistic) in which a cluster of 2-4 residues around a
     buried position is replaced by drawn ionizable types (library rotamers, no clash with other residues)."""
     name = draw(st.sampled_from(PROTEINS))
@@ -742,13 +742,18 @@ def buried_structures(draw, whole=True, pair_kind=None, with_hetero=True):
             entries.extend(r)
         entries.append(ter_line(rs[-1][-1]))
     labels = ["src:" + name, "cluster:" + kind, "buried-host"]
-    if with_hetero and draw(st.integers(0, 2)) == 0:
-        # a library ion or ligand next to the cluster, where it fits
-        if draw(st.booleans()):
-            resn = draw(st.sampled_from(sorted(IONS)))
+    if with_hetero and (hetero is not None or draw(st.integers(0, 2)) == 0):
+        # a library ion or ligand next to the cluster, where it fits (``hetero``: a given library name)
+        if hetero is not None and hetero in IONS:
+            resn = hetero
+            mol, kindl = [(IONS[resn], 0, 0, 0)], "ion:" + resn
+        elif hetero is not None:
+            resn, mol, kindl = LIGANDS[hetero]["resn"], LIGANDS[hetero]["atoms"], "lig:" + hetero
+        elif draw(st.booleans()):
+            resn = sorted(IONS)[draw(st.integers(0, 10 ** 6)) % len(IONS)]        # (spread evenly over the names)
             mol, kindl = [(IONS[resn], 0, 0, 0)], "ion:" + resn
         else:
-            key = draw(st.sampled_from(sorted(LIGANDS)))
+            key = sorted(LIGANDS)[draw(st.integers(0, 10 ** 6)) % len(LIGANDS)]
             resn, mol, kindl = LIGANDS[key]["resn"], LIGANDS[key]["atoms"], "lig:" + key
         grid = Grid([a for a in entries if isinstance(a, Atom)])
         cj, rj, _t = targets[draw(st.integers(0, len(targets) - 1))]
